@@ -5,6 +5,8 @@
 //! only the source IP, HTTP hashes the complete flow (src_ip, dst_ip, src_port, dst_port)
 //! to ensure requests and responses from the same connection are processed by the same worker.
 
+#[cfg(huginn_net_verif_sched)]
+use huginn_net_verif_rt::std;
 use crate::error::HuginnNetHttpError;
 use crate::filter::FilterConfig;
 use crate::http_process::{FlowKey, HttpProcessors, TcpFlow};
